@@ -332,8 +332,12 @@ def compute_landmarks_rescale_time(
     ls_time = validate_positive_float(ls_time, "ls_time", allow_inf=True)
     x = validate_time_x(x, times)
     time_factor = ls / ls_time
-    x = x.at[:, -1].set(x[:, -1] * time_factor)
-    landmarks = compute_landmarks(x, gp_type=gp_type, n_landmarks=n_landmarks)
+    x_scaled = x.at[:, -1].set(x[:, -1] * time_factor)
+    landmarks = compute_landmarks(x_scaled, gp_type=gp_type, n_landmarks=n_landmarks)
+    if landmarks is not None and n_landmarks >= x.shape[0]:
+        # compute_landmarks fell back to the cells themselves: return them as they
+        # are, without the rounding of scaling the time forth and back
+        return x
     if landmarks is not None:
         try:
             landmarks = landmarks.at[:, -1].set(landmarks[:, -1] / time_factor)
